@@ -110,3 +110,47 @@ def verify(contract, timeout_s=30, callees=None, include=None, exclude=None):
     info['gen_seconds'] = time.time() - t0
     out = [EvObl(r['name'], info['function'], r['status'], r['backend'], r['seconds'], r['detail'], r['kind']) for r in res]
     return out, info
+
+
+def verify_many(items, timeout_s=30):
+    """items: list of (key, contract, include, exclude). Generates all obligations first, then discharges them in ONE pool
+    (better use of the cores). returns dict key -> (list of engine.common.Obligation, info)."""
+    import re
+    gen, out = {}, {}
+    allobls, axioms = [], None
+    for key, contract, include, exclude in items:
+        t0 = time.time()
+        info = {'function': contract.module + '.' + contract.name, 'status': 'ok', 'abstracted': [], 'vacuous': []}
+        try:
+            eng, obls = generate(contract)
+        except OutOfSubset as e:
+            info['status'] = 'out-of-subset: %s' % e
+            out[key] = ([], info)
+            continue
+        except ContractError as e:
+            info['status'] = 'contract-does-not-bind: %s' % e
+            out[key] = ([], info)
+            continue
+        info['abstracted'] = eng.abstracted
+        info['generated'] = len(obls)
+        obls = [o for o in obls if (include is None or re.search(include, o.name)) and not (exclude and re.search(exclude, o.name))]
+        for i, o in enumerate(obls):
+            o.uid = '%s@@%d' % (key, i)
+        gen[key] = (eng, obls, info, time.time() - t0)
+        allobls.extend(obls)
+    # one pool for everything (names made unique through uid)
+    saved = [(o, o.name) for o in allobls]
+    for o in allobls:
+        o.name = o.uid
+    res = {r['name']: r for r in solve.discharge(allobls, timeout_s=timeout_s)}
+    for o, nm in saved:
+        o.name = nm
+    for key, (eng, obls, info, gsec) in gen.items():
+        info['vacuous'] = solve.vacuity(eng)
+        info['gen_seconds'] = gsec
+        lst = []
+        for o in obls:
+            r = res[o.uid]
+            lst.append(EvObl(o.name, info['function'], r['status'], r['backend'], r['seconds'], r['detail'], r['kind']))
+        out[key] = (lst, info)
+    return out
